@@ -516,7 +516,7 @@ PROPS = {
         },
         n_quick=300, n_thorough=3000,
         gen_timeout=3000,
-        gates=["stream.scenario", "stream.planted", "stream.unplanted", "stream.compile",
+        gates=["stream.scenario", "stream.planted", "stream.unplanted", "stream.compile", "scenario.thin",
                "fault.setprop_nontable", "fault.dyncall_nonfunction", "fault.missing_native", "fault.missing_global",
                "fault.native_error", "fault.native_conversion", "fault.value_stack", "fault.call_stack",
                "fault.timeout_loop", "fault.foreach_nontable",
